@@ -252,6 +252,12 @@ def h_trainer(e, cfg):
             tr = learn.MSTDP(delayed=delayed, **kw)
         elif kind == "mstdpet":
             tr = learn.MSTDPET(tc_eligibility=10.0, **kw)
+        elif kind == "kernel-biphasic":
+            # general kernels whose value changes sign with the spike-time difference: potentiating and depressing contributions of
+            # different samples to one synapse must not cancel before they are split into parts
+            kp = lambda diff, a, **kw: (1.0 - diff.abs()) * (a * (diff >= 0).to(dtype=diff.dtype))
+            kn = lambda diff, a, **kw: (1.0 - diff.abs()) * (a * (diff < 0).to(dtype=diff.dtype))
+            tr = learn.KernelSTDP(kernel_post=kp, kernel_pre=kn, kernel_post_kwargs=dict(a=1.0), kernel_pre_kwargs=dict(a=-0.5), delayed=False, batch_reduction=torch.sum)
         elif kind == "da-stdp":
             tr = learn.DelayAdjustedSTDP(1.0, -0.5, 20.0, 15.0, batch_reduction=torch.sum)
         else:
@@ -301,6 +307,7 @@ def checks(tier):
     lay = [dict(layer=l, syn=s, B=2, T=(3 if th else 2)) for l in ("serial", "biclique", "recurrent") for s in ("delta", "single")]
     lay += [dict(layer="biclique", syn="delta", B=B, T=3, feed=f) for B in ((2, 3) if th else (2,)) for f in (["a", "ab", "b"], ["b", "b", "a"])]      # partially fed bicliques
     trn = [dict(trainer=t, B=2, T=(3 if th else 2)) for t in ("stdp", "triplet", "mstdp", "mstdpet", "da-stdp", "da-stdpd")]
+    trn += [dict(trainer="kernel-biphasic", B=B, T=4) for B in ((2, 3) if th else (2,))]
     trn += [dict(trainer=t + "-delayed", B=B, T=3) for t in ("stdp", "triplet", "mstdp") for B in ((2, 3) if th else (2,))]
     o = {"div_policy": "xr", "query_timeout_ms": 120000, "max_paths": 20000}
     return [Check("neurons", h_neuron, neu, opts=o, timeout_s=900), Check("synapses", h_synapse, syn, opts=o, timeout_s=1800), Check("connections", h_connection, con, opts=o, timeout_s=1800),
@@ -310,7 +317,7 @@ def checks(tier):
 BOUNDS = {
     "quick": {"batch": 2, "neurons": "8 classes, one step from an arbitrary planted state (adaptation frozen), refrac_lock on/off; the 4 adaptive classes also for two steps with adaptation frozen by eval mode and by adapt=False in training mode", "synapses": "4 classes, one step from an arbitrary planted history, "
               "delay 0 / 2dt, in-place and not, histories and delayed reads with a symbolic selector compared", "connections": "4 types x delta/single-exponential, with and without (grid) symbolic delays, T=2",
-              "layers": "Serial / Biclique / RecurrentSerial, T=2; Biclique stepped with only one of its two connections fed, T=3", "trainers": "STDP, TripletSTDP, MSTDP, MSTDPET, DelayAdjustedSTDP(D) with batch_reduction=sum, T=2; STDP / TripletSTDP / MSTDP with delayed=True on heterogeneous per-synapse delays, T=3"},
+              "layers": "Serial / Biclique / RecurrentSerial, T=2; Biclique stepped with only one of its two connections fed, T=3", "trainers": "STDP, TripletSTDP, MSTDP, MSTDPET, DelayAdjustedSTDP(D) with batch_reduction=sum, T=2; STDP / TripletSTDP / MSTDP with delayed=True on heterogeneous per-synapse delays, T=3; KernelSTDP with a sign-changing kernel, T=4"},
     "thorough": {"batch": [2, 3], "T": 3, "all four synapses in connections": True},
 }
 OUTSIDE = ["adaptation batch reduction (documented coupling)", "batch sizes above 3"]
